@@ -5,6 +5,7 @@ import GsModel.Diff.Terminates
 import GsModel.Ops.Regen
 import GsModel.Text.Escape
 import GsModel.Text.Tags
+import GsModel.Text.Init
 import GsModel.Ops.Gather
 import GsModel.Sec.Serve
 import GsModel.Params.Bind
@@ -80,6 +81,24 @@ def handleEscape (j : Json) : Json :=
   Json.mkObj [("r", Json.str "ok"), ("out", Json.str (String.ofList out)),
     ("eval", match ev with | some v => Json.str v | none => Json.null),
     ("blockEnd", Json.bool (Text.hasBlockEnd out)), ("inLine", Json.bool (Text.inLineComments out))]
+
+instance : Inhabited Text.Init.V := ⟨.num []⟩
+
+partial def jsonInitV (j : Json) : Text.Init.V :=
+  match j with
+  | .str s => .str s.toList
+  | .arr a => .arr (a.toList.map jsonInitV)
+  | .obj kvs => .obj (kvs.toList.map (fun kv => (kv.1.toList, jsonInitV kv.2)))
+  | .num n => .num (toString n).toList
+  | .bool b => .num (toString b).toList
+  | .null => .num "null".toList
+
+/-- {"op":"text.initLiteral","value":<json>} → {"out":s,"structureOk":bool} -/
+def handleInitLiteral (j : Json) : Json :=
+  let v := jsonInitV ((j.getObjVal? "value").toOption.getD .null)
+  let out := Text.Init.render v
+  Json.mkObj [("r", Json.str "ok"), ("out", Json.str (String.ofList out)),
+    ("structureOk", Json.bool (Text.Init.skel 0 out == Text.Init.shape v))]
 
 /-- {"op":"text.printTags","tags":[[key,value]..],"custom":s} → {"out":s,"oneToken":bool} -/
 def handlePrintTags (j : Json) : Json :=
@@ -330,6 +349,7 @@ def handle (line : String) : Json :=
     | "regen.exec" => handleRegen j
     | "text.escape" => handleEscape j
     | "text.printTags" => handlePrintTags j
+    | "text.initLiteral" => handleInitLiteral j
     | "ops.gather" => handleGather j
     | "sec.serve" => handleSec j
     | "param.bind" => handleBind j
